@@ -94,6 +94,9 @@ GENERIC_STR = [
     "--", "-.", "-", "-x", "--foo",
     # a literal dollar sign / tilde (API tokens, quoted paths)
     "$HOME", "tok_${HOME}_1", "~user",
+    # look like numbers (a legend location code, an all-digit token): stored
+    # as numbers although the parameter's default is a string
+    "2", "12345",
     # not ASCII (font names, labels)
     "\uff2d\uff33 \u30b4\u30b7\u30c3\u30af", "Schriftgr\u00f6\u00dfe"
 ]
